@@ -290,6 +290,18 @@ fn check_case(case: &Case, st: &mut Stats) -> CheckResult {
                         return Ok(());
                     },
                 };
+                {
+                    // dot components only where the shape put them deliberately (never follow a
+                    // stray `..`, however it is spelled, out of the scratch directory)
+                    let deliberate = match shape {
+                        Shape::Dots(c) => c.iter().filter(|x| *x == "." || *x == "..").count(),
+                        _ => 0,
+                    };
+                    if prefix_dot_components(&glob) != deliberate {
+                        st.count("skipped_incidental_dot_component");
+                        return Ok(());
+                    }
+                }
                 let rooted = *shape == Shape::Rooted;
                 let given = base_given.clone();
                 let errs = errors.clone();
